@@ -275,7 +275,10 @@ class WebSocket(object):
                 raise ValueError('reason should be <= 123 bytes (encoded)')
         # The state is replaced by connect(), which may be called on
         # another thread; this close belongs to a single connection
-        state = self.state
+        self._close(self.state, code, reason)
+
+    def _close(self, state, code, reason):
+        """Close the connection `state` belongs to."""
         if state.closed:
             log.debug('%r already closed', self)
         else:
@@ -285,37 +288,43 @@ class WebSocket(object):
                 if state.session is not None:
                     state.sent_close_time = state.session.session_time
 
-    def _on_close(self, message):
+    def _on_close(self, message, state=None):
         """Close logic generator."""
+        if state is None:
+            state = self.state
         if message.code in Status.invalid_codes:
             raise errors.ProtocolError(
                 'reserved close code ({})',
                 message.code
             )
-        if self.is_closed:
+        if state.closed:
             return
-        if self.is_closing:
+        if state.closing:
             yield events.Closed(message.code, message.reason)
             # Set closed first, another thread must never see the
             # websocket as neither closing nor closed after a close
-            self.state.closed = True
-            self.state.closing = False
+            state.closed = True
+            state.closing = False
         else:
             yield events.Closing(message.code, message.reason)
-            self.close(message.code, message.reason)
-            self.state.closing = True
+            self._close(state, message.code, message.reason)
+            state.closing = True
 
     def force_disconnect(self):
         """Force the socket to disconnect."""
         if self.state.session is not None:
             self.state.session.force_disconnect()
 
-    def on_disconnect(self):
+    def on_disconnect(self, state=None):
         """Called on disconnect."""
-        if self.state.session is not None:
-            self.state.session.close()
-        self.state.closing = False
-        self.state.closed = True
+        # connect() (possibly on another thread) replaces self.state; the
+        # event loop passes in the state of the connection it belongs to
+        if state is None:
+            state = self.state
+        if state.session is not None:
+            state.session.close()
+        state.closed = True
+        state.closing = False
 
     def feed(self, data):
         """Feed with data from the socket, and yield any events.
@@ -336,14 +345,14 @@ class WebSocket(object):
                     try:
                         protocol, extensions = self.on_response(response)
                     except errors.HandshakeError as error:
-                        self.on_disconnect()
+                        self.on_disconnect(state)
                         yield events.Rejected(response, six.text_type(error))
                         break
                     else:
                         yield events.Ready(response, protocol, extensions)
                 else:
                     if message.is_close:
-                        for event in self._on_close(message):
+                        for event in self._on_close(message, state):
                             yield event
                     elif message.is_ping:
                         yield events.Ping(message.data)
@@ -353,7 +362,7 @@ class WebSocket(object):
                         yield events.Binary(message.data)
                     elif message.is_text:
                         yield events.Text(message.text)
-                if self.is_closed:
+                if state.closed:
                     break
 
         except errors.CriticalProtocolError as error:
@@ -368,19 +377,16 @@ class WebSocket(object):
             # disconnect.
             log.debug('protocol error; %s', error)
             yield events.ProtocolError(six.text_type(error), False)
-            self.close(Status.PROTOCOL_ERROR, six.text_type(error))
+            self._close(state, Status.PROTOCOL_ERROR, six.text_type(error))
             self.force_disconnect()
 
         except GeneratorExit:
             # The generator has exited prematurely, due to an exception
             # handling the event.
             log.warning('disconnecting websocket')
-            if self.state is state:
-                self.on_disconnect()
-            elif state.session is not None:
-                # connect() was called again since then; release the
-                # old connection only, the new one is not ours to close
-                state.session.close()
+            # Only the connection this generator belongs to; connect()
+            # may have been called again since it was started
+            self.on_disconnect(state)
 
     def build_request(self):
         """Get the websocket request (in bytes).
